@@ -44,30 +44,15 @@ SIMPLE = {'include', 'from', 'import', 'extends', 'do', 'assert', 'break', 'cont
 AUDIT_RE = re.compile(r'^nunavut\.embed_auditing_info(\s+and\s+.*)?$', re.S)
 INLINE_RE = re.compile(r'\sif\s+nunavut\.embed_auditing_info\s+else\s', re.S)
 
-AMBIENT = [
-    ('KClock', re.compile(r'\bnow_utc\b')),
-    ('KAbsSrc', re.compile(r'\bsource_file_path\b(?!\s*\.\s*name\b)')),
-    ('KAbsSrc', re.compile(r'\b_source_folder\b|\bsource_folder\b|\boutput_folder\b(?!\s*\.\s*name\b)')),
-    ('KAbsSrc', re.compile(r'\btype_to_include_path\s*\(')),
-    ('KPickle', re.compile(r'\|\s*pickle\b')),
-    ('KPickle', re.compile(r'\|\s*yamlfy\b')),
-    ('KPlatform', re.compile(r'\bplatform_version\b')),
-    ('KCwd', re.compile(r'\bcwd\b|\bgetcwd\b')),
-    # a Jinja `| sort` is case-insensitive by default (names differing in case tie, input order kept): only
-    # natural_sort_namespace (its totality is the Python fact sf_natsort_total) or sort(case_sensitive=true) count as sorted
-    ('KNsIter', re.compile(r'\bget_nested_namespaces\s*\(\s*\)(?!\s*\|\s*(natural_sort_namespace\b|sort\s*\([^)]*case_sensitive\s*=\s*[Tt]rue))')),
-    ('KTmplSets', re.compile(r'\btemplate_sets\b')),
-    ('KTmplSets', re.compile(r'\bsearchpath\b|\bloader\b|\b_fsloader\b|\btemplates_dirs?\b')),
-    ('KNsIter', re.compile(r'\b_nested_namespaces\b|\bget_all_(types|datatypes|namespaces)\b|\bcomposite_types\b')),
-    ('KIncUnsorted', re.compile(r'\|\s*(includes|imports)\s*\(')),
-]
+# (the list of ambient-capable template names is DERIVED: derive_inventory / build_ambient below)
 
 
 def _line_of(text: str, pos: int) -> int:
     return text.count('\n', 0, pos) + 1
 
 
-def scan_template(text: str, name: str) -> typing.List[typing.Tuple[str, bool, int]]:
+def scan_template(text: str, name: str, amb: typing.Optional[list] = None, inv: typing.Optional[dict] = None,
+                  names_out: typing.Optional[set] = None) -> typing.List[typing.Tuple[str, bool, int]]:
     """-> [(kind, gated, line)]; raises Unsupported on anything the scanner does not understand"""
     sites = []
     stack: typing.List[typing.List[typing.Any]] = []   # [tag, in_audit_true_branch]
@@ -119,9 +104,17 @@ def scan_template(text: str, name: str) -> typing.List[typing.Tuple[str, bool, i
                 continue
             expr = inner
         block_gated = any(f[1] for f in stack)
+        cur_tag = tag if is_stmt else ''
+        if names_out is not None:
+            names_out.update(referenced_names(cur_tag, expr))
+        if inv is not None:
+            for kind in _pair_api_sites(inv, cur_tag, expr):
+                sites.append((kind, block_gated, line))
         # an `if nunavut.embed_auditing_info` statement's own condition is not a use
-        for kind, rx in AMBIENT:
-            for u in rx.finditer(expr):
+        if amb is not None:
+            expr = re.sub(r'\.\s*__class__\s*\.\s*__name__\b', '.CLASSNAME', expr)     # the class name: not ambient
+        for kind, rx in (amb or []):
+            for u in rx.finditer(STRING_RE.sub(lambda mm: '"' + ' ' * (len(mm.group(0)) - 2) + '"', expr) if amb is not None else expr):
                 gated = block_gated
                 if not gated:
                     im = INLINE_RE.search(expr)
@@ -141,6 +134,260 @@ def template_group(fname: str, is_support: bool) -> str:
     if low.startswith('namespace'):
         return 'GNs'
     return 'GType'
+
+
+
+# ------------------------------------------------------------------------------------------------------------------
+# What a template can reach: derived from the environment, not from a hand list
+# ------------------------------------------------------------------------------------------------------------------
+JINJA_KEYWORDS = {'and', 'or', 'not', 'in', 'is', 'if', 'else', 'true', 'false', 'none', 'True', 'False', 'None', 'loop', 'caller',
+                  'varargs', 'kwargs', 'self', 'super', 'recursive', 'ignore', 'missing', 'with', 'without', 'context', 'as', 'import',
+                  'scoped', 'required', '_'}
+
+
+def _dict_keys(tree: ast.AST, name: str) -> typing.Set[str]:
+    for n in ast.walk(tree):
+        if isinstance(n, ast.Assign) and len(n.targets) == 1 and ast.unparse(n.targets[0]) == name and isinstance(n.value, ast.Dict):
+            return {k.value for k in n.value.keys if isinstance(k, ast.Constant)}
+    raise Unsupported('cannot find %s' % name)
+
+
+def _pydsdl_test_names() -> typing.Set[str]:
+    """the tests DSDLCodeGenerator._create_instance_tests_for_type registers (class name + its lower-case short form)"""
+    import pydsdl
+    out: typing.Set[str] = set()
+
+    def rec(root: type) -> None:
+        out.add(root.__name__)
+        low = root.__name__.lower()
+        if len(low) > 4 and low.endswith('type'):
+            out.add(low[:-4])
+        elif len(low) > 5 and low.endswith('field'):
+            out.add(low[:-5])
+        else:
+            out.add(low)
+        for d in root.__subclasses__():
+            rec(d)
+    rec(pydsdl.SerializableType)
+    rec(pydsdl.Attribute)
+    return out
+
+
+def _path_members(tree: ast.AST, cls_name: str) -> typing.Dict[str, typing.Tuple[str, bool]]:
+    """public methods/properties of a class whose return annotation mentions a Path: name -> (kind, yields (object, path) pairs)"""
+    out = {}
+    cls = find_def(tree, cls_name)
+    for m in cls.body:
+        if isinstance(m, ast.FunctionDef) and not m.name.startswith('_') and m.returns is not None:
+            ann = ast.unparse(m.returns)
+            if re.search(r'\bPath\b|\bPurePath\b', ann):
+                out[m.name] = ('KAbsSrc' if 'source' in m.name else 'KOutPath', bool(re.search(r'Tuple|ItemsView', ann)))
+    return out
+
+
+def derive_inventory(trees: typing.Dict[str, ast.Module]) -> dict:
+    envt = trees[os.path.join('jinja', 'environment.py')]
+    jj = trees[os.path.join('jinja', '__init__.py')]
+    inv: dict = {'globals': {}, 'filters': {}, 'tests': set(), 'attrs': {}, 'pair_attrs': set(), 'namespaces': set()}
+    # -- globals: keys stored into self.globals, the reserved namespaces/names, Jinja's default namespace, generate(T=...)
+    for n in ast.walk(envt):
+        if isinstance(n, ast.Assign) and len(n.targets) == 1 and isinstance(n.targets[0], ast.Subscript) \
+                and ast.unparse(n.targets[0].value) == 'self.globals':
+            k = n.targets[0].slice
+            if isinstance(k, ast.Constant):
+                inv['globals'][k.value] = 'KClock' if re.search(r'datetime|time', ast.unparse(n.value)) else None
+        if isinstance(n, ast.Assign) and len(n.targets) == 1 and isinstance(n.targets[0], ast.Name) \
+                and n.targets[0].id in ('RESERVED_GLOBAL_NAMESPACES', 'RESERVED_GLOBAL_NAMES') and isinstance(n.value, ast.Set):
+            for e in n.value.elts:
+                if isinstance(e, ast.Constant):
+                    inv['globals'].setdefault(e.value, None)
+                    if n.targets[0].id == 'RESERVED_GLOBAL_NAMESPACES':
+                        inv['namespaces'].add(e.value)
+        # attributes of the `nunavut` namespace: setattr(nunavut_namespace, "key", value)
+        if is_call_to(n, 'setattr') and len(n.args) == 3 and isinstance(n.args[1], ast.Constant) and 'namespace' in ast.unparse(n.args[0]):
+            v = ast.unparse(n.args[2])
+            kind = 'KPlatform' if '_create_platform_version' in v else ('KTmplSets' if 'get_template_sets' in v else None)
+            if kind:
+                inv['attrs'][n.args[1].value] = kind
+    inv['globals'].update({k: None for k in _dict_keys(parse(os.path.join('jinja', 'jinja2', 'defaults.py')), 'DEFAULT_NAMESPACE')})
+    # language globals: Language.get_globals (prefix + key of the named types / values of properties.yaml) and the
+    # _validate_globals overrides of the language classes (constant keys)
+    inv['global_prefixes'] = set()
+    for rel, tree in trees.items():
+        for fn in [n for n in ast.walk(tree) if isinstance(n, ast.FunctionDef) and n.name in ('get_globals', '_validate_globals')]:
+            for n in ast.walk(fn):
+                if isinstance(n, ast.Assign) and len(n.targets) == 1 and isinstance(n.targets[0], ast.Subscript) \
+                        and ast.unparse(n.targets[0].value) == 'globals_map':
+                    k = n.targets[0].slice
+                    if isinstance(k, ast.Constant) and isinstance(k.value, str):
+                        inv['globals'][k.value] = None
+                    elif isinstance(k, ast.JoinedStr) and k.values and isinstance(k.values[0], ast.Constant):
+                        inv['global_prefixes'].add(k.values[0].value)
+                    else:
+                        raise Unsupported('%s %s: computed global name' % (rel, fn.name))
+    for n in ast.walk(jj):
+        if isinstance(n, ast.Call) and isinstance(n.func, ast.Attribute) and n.func.attr == 'generate':
+            for k in n.keywords:
+                if k.arg:
+                    inv['globals'][k.arg] = None
+    # -- filters / tests / uses-queries by naming convention, classified by what their bodies do
+    for rel, name, fn in template_functions(trees):
+        short = name.split('.')[-1]
+        body = ast.unparse(fn)
+        params = [a.arg for a in fn.args.args]
+        if short.startswith('filter_'):
+            kind = None
+            if re.search(r'\bpickle\.|Pickler\b|\byaml\.dump', body):
+                kind = 'KPickle'                                 # serialises the whole object it is given
+            elif 'resolve' in params:
+                kind = 'KAbsSrc:args'                            # absolute only when called with an argument
+            elif 'sort' in params:
+                kind = 'KIncUnsorted:args'
+            inv['filters'][short[len('filter_'):]] = kind
+        elif short.startswith('is_'):
+            inv['tests'].add(short[len('is_'):])
+        else:
+            inv['globals'].setdefault('uses_queries', None)
+    inv['filters'].update({k: None for k in _dict_keys(parse(os.path.join('jinja', 'jinja2', 'filters.py')), 'FILTERS')
+                           if k not in inv['filters']})
+    inv['tests'] |= _dict_keys(parse(os.path.join('jinja', 'jinja2', 'tests.py')), 'TESTS')
+    inv['tests'] |= _pydsdl_test_names()
+    # extension tags add no names; ifuses/ifnuses take a string
+    # -- attributes that carry a path: the Namespace API and pydsdl.CompositeType
+    for name, (kind, pairs) in _path_members(trees['_namespace.py'], 'Namespace').items():
+        inv['attrs'][name] = kind
+        if pairs:
+            inv['pair_attrs'].add(name)
+    import importlib.util
+    spec = importlib.util.find_spec('pydsdl')
+    comp = ast.parse(open(os.path.join(os.path.dirname(spec.origin), '_serializable', '_composite.py'), encoding='utf-8').read())
+    for name, (kind, pairs) in _path_members(comp, 'CompositeType').items():
+        inv['attrs'].setdefault(name, 'KAbsSrc')
+    return inv
+
+
+def build_ambient(inv: dict) -> list:
+    amb = []
+    for g, kind in sorted(inv['globals'].items()):
+        if kind:
+            amb.append((kind, re.compile(r'(?<![\w.])%s\b' % re.escape(g))))
+    for a, kind in sorted(inv['attrs'].items()):
+        if a in inv['pair_attrs']:
+            continue                                             # handled by _pair_api_sites (the path half may be dropped)
+        if kind in ('KAbsSrc', 'KOutPath'):
+            amb.append((kind, re.compile(r'\.\s*%s\b(?!\s*(\(\s*\))?\s*\.\s*(name|stem|suffix)\b)' % re.escape(a))))
+        else:
+            amb.append((kind, re.compile(r'\.\s*%s\b' % re.escape(a))))
+    for f, kind in sorted(inv['filters'].items()):
+        if kind == 'KPickle':
+            amb.append(('KPickle', re.compile(r'\|\s*%s\b' % re.escape(f))))
+        elif kind == 'KAbsSrc:args':
+            amb.append(('KAbsSrc', re.compile(r'\b%s\s*\(' % re.escape(f))))
+        elif kind == 'KIncUnsorted:args':
+            amb.append(('KIncUnsorted', re.compile(r'\|\s*%s\s*\(' % re.escape(f))))
+    # internals and computed attribute access: anything may be behind them
+    amb.append(('KAbsSrc', re.compile(r'\.\s*_\w+|\|\s*attr\s*\(|\b__\w+__\b|\bsearchpath\b|\bloader\b|\btemplates_dirs?\b')))
+    amb.append(('KCwd', re.compile(r'\bcwd\b|\bgetcwd\b')))
+    # hash-ordered collections and the one sorted accessor
+    amb.append(('KNsIter', re.compile(r'\bget_nested_namespaces\s*\(\s*\)(?!\s*\|\s*(natural_sort_namespace\b|sort\s*\([^)]*case_sensitive\s*=\s*[Tt]rue))')))
+    amb.append(('KNsIter', re.compile(r'\bcomposite_types\b')))
+    return amb
+
+
+PAIR_OK_FOR = re.compile(r'^\s*\w+\s*,\s*_\s+in\s')
+
+
+def _pair_api_sites(inv: dict, tag: str, expr: str) -> typing.List[str]:
+    """uses of Namespace methods that yield (object, output path) pairs: harmless when the path half is dropped --
+    `for x, _ in NS.api()`, `NS.api() | map("first")`, a bare truth test -- an output-location site otherwise"""
+    kinds = []
+    for a in sorted(inv['pair_attrs']):
+        for m in re.finditer(r'\.\s*%s\s*\(\s*\)' % re.escape(a), expr):
+            rest = expr[m.end():]
+            dropped = bool(re.match(r'\s*\|\s*map\s*\(\s*["\']first["\']\s*\)', rest)) or \
+                (tag == 'for' and PAIR_OK_FOR.match(expr) is not None) or \
+                (tag in ('if', 'elif') and re.fullmatch(r'\s*(not\s+)?[\w.]+\s*\(\s*\)\s*', expr) is not None)
+            if not dropped:
+                kinds.append('KOutPath')
+    return kinds
+
+
+STRING_RE = re.compile(r"'(?:\\.|[^'\\])*'|\"(?:\\.|[^\"\\])*\"")
+IDENT_RE = re.compile(r'[A-Za-z_]\w*')
+
+
+def collect_bindings(text: str) -> typing.Set[str]:
+    """names bound inside templates: set / for targets, macro names and parameters, call-block arguments, import aliases, with"""
+    b: typing.Set[str] = set()
+    for m in TOKEN_RE.finditer(text):
+        tok = m.group(0)
+        if not tok.startswith('{%'):
+            continue
+        inner = STRING_RE.sub('""', tok[2:-2].strip().lstrip('-+').rstrip('-+').strip())
+        head = inner.split(None, 1)
+        if len(head) < 2:
+            continue
+        tag, rest = head
+        if tag == 'set':
+            b.update(IDENT_RE.findall(rest.split('=', 1)[0]))
+        elif tag == 'for':
+            b.update(IDENT_RE.findall(re.split(r'\sin\s', rest, 1)[0]))
+        elif tag == 'macro':
+            mm = re.match(r'(\w+)\s*\((.*)\)\s*$', rest, re.S)
+            if mm:
+                b.add(mm.group(1))
+                b.update(x.split('=')[0].strip() for x in mm.group(2).split(',') if x.strip())
+        elif tag == 'call':
+            mm = re.match(r'\(([^)]*)\)', rest)
+            if mm:
+                b.update(IDENT_RE.findall(mm.group(1)))
+        elif tag == 'from':
+            imp = rest.split(' import ', 1)
+            if len(imp) == 2:
+                for part in imp[1].replace('with context', '').replace('without context', '').split(','):
+                    w = part.split()
+                    if w:
+                        b.add(w[-1])
+        elif tag == 'import':
+            w = rest.split()
+            if 'as' in w:
+                b.add(w[w.index('as') + 1])
+        elif tag == 'with':
+            b.update(x.split('=')[0].strip() for x in rest.split(',') if '=' in x)
+    return b
+
+
+def referenced_names(tag: str, expr: str) -> typing.List[typing.Tuple[str, str]]:
+    """(role, name) for every identifier of an expression: 'name' (bare), 'filter' (after |), 'test' (after is / is not)"""
+    if tag in ('macro', 'call', 'block', 'from', 'import', 'include', 'extends', 'filter', 'ifuses', 'ifnuses', 'endblock', 'endmacro'):
+        return []
+    e = STRING_RE.sub('""', expr)
+    if tag == 'for':
+        parts = re.split(r'\sin\s', e, 1)
+        e = parts[1] if len(parts) == 2 else ''
+    elif tag == 'set':
+        parts = e.split('=', 1)
+        e = parts[1] if len(parts) == 2 else ''
+    out = []
+    for m in IDENT_RE.finditer(e):
+        name = m.group(0)
+        before = e[:m.start()].rstrip()
+        after = e[m.end():].lstrip()
+        if before.endswith('.'):
+            continue                                             # attribute: classified through inv['attrs']
+        if re.match(r'^=(?!=)', after) and (before.endswith('(') or before.endswith(',')):
+            continue                                             # keyword argument name
+        if before.endswith('|'):
+            out.append(('filter', name))
+        elif name == 'not' and re.search(r'\bis$', before):
+            continue
+        elif re.search(r'\bis(\s+not)?$', before):
+            out.append(('test', name))
+        elif name[0].isdigit():
+            continue
+        else:
+            out.append(('name', name))
+    return out
 
 
 INCLUDE_RE = re.compile(r"^(include|import|from|extends)\s+(.*)$", re.S)
@@ -166,14 +413,26 @@ def template_refs(text: str, name: str) -> typing.List[str]:
     return refs
 
 
-def scan_all_templates() -> typing.Tuple[typing.List[typing.Tuple[str, str, str, bool, int, str]], typing.List[typing.Tuple[str, bool, str]],
-                                         typing.List[typing.Tuple[str, int]]]:
+def scan_all_templates(trees: typing.Dict[str, ast.Module]):
     """-> (sites, includes, scanned).  Every .j2 under templates/ and support/ is an entry point; every file they name through
     include/import/from/extends is scanned too, WHATEVER ITS SUFFIX (Jinja renders included files as templates: the HTML pages
     include namespace_base.js and assets/*), transitively."""
-    sites, includes, scanned = [], [], []
+    sites, includes, scanned, name_rows = [], [], [], []
+    inv = derive_inventory(trees)
+    amb = build_ambient(inv)
     for lname, lcoq in LANGS:
         n_files = 0
+        bindings: typing.Set[str] = set()
+        ref_names: typing.Set[typing.Tuple[str, str]] = set()
+        for sub in ('templates', 'support'):
+            d0 = os.path.join(gen.REPO, SRC, 'lang', lname, sub)
+            for root, _, fnames in os.walk(d0) if os.path.isdir(d0) else []:
+                for n in fnames:
+                    if not n.endswith(('.py', '.pyc')):
+                        try:
+                            bindings |= collect_bindings(open(os.path.join(root, n), encoding='utf-8').read())
+                        except UnicodeDecodeError:
+                            pass
         for sub, is_support in (('templates', False), ('support', True)):
             d = os.path.join(gen.REPO, SRC, 'lang', lname, sub)
             if not os.path.isdir(d):
@@ -195,7 +454,7 @@ def scan_all_templates() -> typing.Tuple[typing.List[typing.Tuple[str, str, str,
                 text = open(p, encoding='utf-8').read()          # UnicodeDecodeError -> translator crash -> fail closed
                 if first:
                     n_files += 1
-                for kind, gated, line in scan_template(text, rel):
+                for kind, gated, line in scan_template(text, rel, amb, inv, ref_names):
                     for g in sorted(new_groups):
                         sites.append((lcoq, g, kind, gated, line, rel))
                 for ref in template_refs(text, rel):
@@ -207,7 +466,15 @@ def scan_all_templates() -> typing.Tuple[typing.List[typing.Tuple[str, str, str,
                         # an included file is rendered in the context of its includer: it inherits the includer's groups
                         work.append((q, frozenset(new_groups | ({template_group(os.path.basename(q), is_support)} if q.endswith('.j2') else set()))))
         scanned.append((lcoq, n_files))
-    return sites, includes, scanned
+        for role, nm in sorted(ref_names):
+            if role == 'name':
+                ok = nm in bindings or nm in inv['globals'] or nm in JINJA_KEYWORDS or any(nm.startswith(px) for px in inv['global_prefixes'])
+            elif role == 'filter':
+                ok = nm in inv['filters'] or nm in inv['namespaces'] or nm in bindings
+            else:
+                ok = nm in inv['tests']
+            name_rows.append((ok, '%s %s %s' % (lname, role, nm)))
+    return sites, includes, scanned, name_rows
 
 
 # ------------------------------------------------------------------------------------------------------------------
@@ -616,12 +883,24 @@ def set_iterations(trees: typing.Dict[str, ast.Module]) -> typing.List[typing.Tu
             return '<set-expr>'
         return None
 
+    ORDER_FREE = {'set', 'frozenset', 'any', 'all', 'len', 'sum', 'min', 'max'}
     for rel, tree in trees.items():
+        par = _parents(tree)
         for fn in [n for n in ast.walk(tree) if isinstance(n, (ast.FunctionDef, ast.AsyncFunctionDef))]:
             key = (rel, fn.name)
             for node in ast.walk(fn):
                 cands: typing.List[typing.Tuple[ast.AST, bool]] = []
                 total = True
+                if isinstance(node, ast.comprehension):
+                    # set-to-set: the generator of a set comprehension, or of a generator expression consumed by an
+                    # order-insensitive function, produces no order (what is then done with the resulting set is its own site)
+                    comp = par.get(id(node))
+                    if isinstance(comp, ast.SetComp):
+                        continue
+                    user = par.get(id(comp))
+                    if isinstance(comp, ast.GeneratorExp) and isinstance(user, ast.Call) and isinstance(user.func, ast.Name) \
+                            and (user.func.id in ORDER_FREE or (user.func.id == 'sorted' and not user.keywords)):
+                        continue
                 if isinstance(node, (ast.For, ast.AsyncFor)):
                     cands.append((node.iter, False))
                 elif isinstance(node, ast.comprehension):
@@ -657,13 +936,14 @@ CLOCK_ATTRS = {'utcnow', 'now', 'today', 'time', 'time_ns', 'monotonic', 'perf_c
 READ_SITE_MAP = {
     ('jinja/__init__.py', '_generate_code', 'RClock'): 'RdNowUtc',
     ('jinja/environment.py', '_create_platform_version', 'RPlatform'): 'RdPlatform',
+    ('_postprocessors.py', '__call__', 'RPlatform'): 'RdPpRunProgram',
     ('cli/__init__.py', '_extra_includes_from_env', 'REnviron'): 'RdEnvIncludes',
 }
 
 
 # -- where does an absolute path go?  (sink tracking for resolve()/abspath()/... calls and `.source_file_path` loads) ----------
 LISTING_CALLS = ('self._stdout_lister', 'print', 'sys.stdout.write', 'sys.stderr.write')
-PATH_REDUCERS = {'name', 'stem', 'suffix', 'suffixes', 'exists', 'is_file', 'is_dir'}
+PATH_REDUCERS = {'name', 'stem', 'suffix', 'suffixes', 'exists', 'is_file', 'is_dir', 'relative_to'}
 
 
 def _parents(tree: ast.AST) -> typing.Dict[int, ast.AST]:
@@ -701,6 +981,11 @@ def classify_path_sink(trees: typing.Dict[str, ast.Module], pars: typing.Dict[st
         p = par.get(id(cur))
         if p is None:
             return 'RdUnknown'
+        if isinstance(p, ast.Call) and isinstance(p.func, ast.Attribute) and p.func.attr == 'relative_to' and any(cur is a for a in p.args):
+            return 'RdReduced'              # x.relative_to(<this path>): the result is relative
+        if isinstance(p, ast.For) and p.iter is cur and isinstance(p.target, ast.Tuple) and len(p.target.elts) == 2 \
+                and isinstance(p.target.elts[1], ast.Name) and p.target.elts[1].id == '_':
+            return 'RdReduced'              # for x, _ in ns.get_nested_types(): the path half of the pairs is dropped
         if isinstance(p, ast.Attribute) and p.value is cur:
             if p.attr in PATH_REDUCERS:
                 return 'RdReduced'          # .name / .exists(): no absolute component survives
@@ -728,6 +1013,19 @@ def classify_path_sink(trees: typing.Dict[str, ast.Module], pars: typing.Dict[st
                           ast.keyword, ast.Starred, ast.IfExp, ast.BoolOp)):
             cur = p
             continue
+        if isinstance(p, ast.Assign) and len(p.targets) == 1 and isinstance(p.targets[0], ast.Name) and depth < 3:
+            # a local variable: follow every later load of it inside the function
+            fn = p
+            while fn is not None and not isinstance(fn, ast.FunctionDef):
+                fn = par.get(id(fn))
+            if fn is None:
+                return 'RdUnknown'
+            loads = [n for n in ast.walk(fn) if isinstance(n, ast.Name) and n.id == p.targets[0].id and isinstance(n.ctx, ast.Load)]
+            sinks = {classify_path_sink(trees, pars, rel, n, depth + 1) for n in loads}
+            sinks.discard('RdReduced')
+            if not sinks:
+                return 'RdReduced'
+            return sorted(sinks)[0] if len(sinks) == 1 else ('RdUnknown' if 'RdUnknown' in sinks else sorted(sinks)[0])
         if isinstance(p, ast.Assign) and len(p.targets) == 1 and ast.unparse(p.targets[0]) == 'self._source_folder' and rel == '_namespace.py':
             return 'RdNsSourceFolder' if _source_folder_loads_ok(trees) else 'RdUnknown'
         if isinstance(p, ast.Return):
@@ -737,12 +1035,12 @@ def classify_path_sink(trees: typing.Dict[str, ast.Module], pars: typing.Dict[st
             if isinstance(fn, ast.Lambda):
                 cur = fn
                 continue
-            if fn is None or depth >= 1:
-                return 'RdUnknown'
-            if fn.name == 'filter_type_to_include_path':
+            if fn is not None and fn.name == 'filter_type_to_include_path':
                 guarded = any(isinstance(i, ast.If) and isinstance(i.test, ast.Name) and i.test.id == 'resolve'
                               and any(p is x for b in i.body for x in ast.walk(b)) for i in ast.walk(fn))
                 return 'RdIncludeResolve' if guarded else 'RdUnknown'
+            if fn is None or depth >= 1:
+                return 'RdUnknown'
             sinks = set()
             for rel2, tree2 in trees.items():
                 for c in ast.walk(tree2):
@@ -780,10 +1078,238 @@ def _source_folder_loads_ok(trees: typing.Dict[str, ast.Module]) -> bool:
     return True
 
 
+# -- what counts as an ambient read (names are resolved through the module's imports first) -----------------------------------
+def import_aliases(tree: ast.AST) -> typing.Dict[str, str]:
+    """local name -> qualified name, for every import statement of the module (module level and function level alike):
+    `import datetime as dt` -> dt: datetime;  `from os import environ, getcwd as g` -> environ: os.environ, g: os.getcwd"""
+    al: typing.Dict[str, str] = {}
+    for n in ast.walk(tree):
+        if isinstance(n, ast.Import):
+            for a in n.names:
+                al[a.asname or a.name.split('.')[0]] = a.name if a.asname else a.name.split('.')[0]
+        elif isinstance(n, ast.ImportFrom) and n.module and n.level == 0:
+            for a in n.names:
+                al[a.asname or a.name] = n.module + '.' + a.name
+    return al
+
+
+def qual(expr: ast.AST, alias: typing.Dict[str, str]) -> typing.Optional[str]:
+    if isinstance(expr, ast.Name):
+        return alias.get(expr.id, expr.id)
+    if isinstance(expr, ast.Attribute):
+        b = qual(expr.value, alias)
+        return None if b is None else b + '.' + expr.attr
+    if isinstance(expr, ast.Call):
+        b = qual(expr.func, alias)
+        return None if b is None else b + '()'
+    return None
+
+
+CLOCK_Q = re.compile(r'^(datetime\.(datetime|date)\.(now|utcnow|today|fromtimestamp)|time\.(time|time_ns|monotonic|monotonic_ns|perf_counter|'
+                     r'perf_counter_ns|process_time|localtime|gmtime|ctime|strftime|asctime|mktime))$')
+CWD_Q = re.compile(r'^(os\.(getcwd|getcwdb|getpid|getppid|getlogin|uname|getuid|geteuid|getgid|umask|cpu_count|get_terminal_size)|'
+                   r'os\.path\.(expanduser|expandvars)|pathlib\.(Path|PosixPath)\.(cwd|home)|tempfile\.\w+|socket\.(gethostname|getfqdn|gethostbyname)|'
+                   r'getpass\.\w+|pwd\.\w+|shutil\.get_terminal_size|platform\.node)$')
+LOCALE_Q = re.compile(r'^(locale\.\w+|sys\.(getdefaultencoding|getfilesystemencoding|getfilesystemencodeerrors)|os\.(device_encoding|fsencode|fsdecode)|'
+                      r'time\.(tzset))$')
+LISTDIR_Q = re.compile(r'^(os\.(listdir|scandir|walk|fwalk)|glob\.(glob|iglob))$')
+ATTR_READS = {'os.environ': 'REnviron', 'os.environb': 'REnviron', 'sys._xoptions': 'RPlatform', 'sys.platform': 'RPlatform',
+              'os.name': 'RPlatform', 'os.linesep': 'RPlatform', 'sys.byteorder': 'RPlatform', 'sys.maxsize': 'RPlatform',
+              'sys.executable': 'RPlatform', 'sys.prefix': 'RPlatform', 'sys.flags': 'RPlatform', 'sys.path': 'REnviron',
+              'time.tzname': 'RLocale', 'time.timezone': 'RLocale', 'time.altzone': 'RLocale', 'time.daylight': 'RLocale',
+              'sys.stdout.encoding': 'RLocale', 'sys.stdin.encoding': 'RLocale'}
+BINARY_OPENERS = re.compile(r'^(gzip|bz2|lzma|tarfile|zipfile|shelve|dbm|wave|webbrowser|os|urllib\.request)\.')
+
+
+def _text_open_without_encoding(call: ast.Call, mode_index: int) -> bool:
+    mode = None
+    if len(call.args) > mode_index:
+        mode = call.args[mode_index]
+    for k in call.keywords:
+        if k.arg == 'mode':
+            mode = k.value
+    if mode is not None and not isinstance(mode, ast.Constant):
+        return True                                   # computed mode: assume text
+    if mode is not None and 'b' in str(mode.value):
+        return False
+    return not any(k.arg == 'encoding' for k in call.keywords) and len(call.args) <= mode_index + 2
+
+
+def detect_read(node: ast.AST, alias: typing.Dict[str, str], owner_fn: typing.Optional[str]) -> typing.Optional[str]:
+    if isinstance(node, ast.Call):
+        f = node.func
+        q = qual(f, alias) or ''
+        if CLOCK_Q.match(q):
+            return 'RClock'
+        if CWD_Q.match(q):
+            return 'RCwd'
+        if LOCALE_Q.match(q):
+            return 'RLocale'
+        if LISTDIR_Q.match(q):
+            return 'RListdir'
+        if q.startswith('platform.') and q != 'platform.python_version':
+            return 'RPlatform'
+        if re.match(r'^(random|uuid|secrets)\.', q) or q in ('os.urandom', 'os.getrandom'):
+            return 'RRandom'
+        if q in ('os.getenv', 'os.getenvb'):
+            return 'REnviron'
+        if re.match(r'^os\.path\.(getmtime|getctime|getatime)$', q):
+            return 'RMtime'
+        if q in ('open', 'io.open', 'codecs.open') and _text_open_without_encoding(node, 1):
+            return 'RLocale'
+        if q == 'id':
+            return 'RRandom'                          # object identity = address
+        if q == 'hash' and owner_fn != '__hash__':
+            return 'RRandom'                          # str hashes are seeded
+        if q in ('repr', 'ascii') and False:
+            return None
+        if isinstance(f, ast.Attribute):
+            base = qual(f.value, alias) or ast.unparse(f.value)
+            if f.attr in CLOCK_ATTRS and re.search(r'\b(datetime|time|date)\b', base):
+                return 'RClock'
+            if f.attr in ('getcwd', 'getcwdb', 'cwd', 'home', 'expanduser', 'gettempdir', 'mkdtemp', 'gethostname', 'getuser', 'getlogin'):
+                return 'RCwd'
+            if f.attr in ('resolve', 'absolute', 'abspath', 'realpath'):
+                return 'RResolve'
+            if f.attr in ('iterdir', 'glob', 'rglob', 'scandir', 'listdir'):
+                return 'RListdir'
+            if f.attr == 'open' and not BINARY_OPENERS.match(q) and _text_open_without_encoding(node, 0):
+                return 'RLocale'                      # Path.open("w") without encoding=
+            if f.attr in ('read_text', 'write_text') and not any(k.arg == 'encoding' for k in node.keywords) \
+                    and len(node.args) <= (0 if f.attr == 'read_text' else 1):
+                return 'RLocale'
+        return None
+    if isinstance(node, ast.Attribute) and isinstance(node.ctx, ast.Load):
+        if node.attr == 'source_file_path':
+            return 'RAbsPath'                         # pydsdl / Namespace: an absolute path
+        if node.attr in ('st_mtime', 'st_ctime', 'st_atime', 'st_mtime_ns', 'st_ctime_ns', 'st_atime_ns', 'st_ino', 'st_dev'):
+            return 'RMtime'
+        q = qual(node, alias)
+        if q in ATTR_READS:
+            return ATTR_READS[q]
+        return None
+    if isinstance(node, ast.Name) and isinstance(node.ctx, ast.Load):
+        q = alias.get(node.id)
+        if q in ATTR_READS:
+            return ATTR_READS[q]                      # `from os import environ` ... environ
+    return None
+
+
+def _diagnostic_only(par: typing.Dict[int, ast.AST], node: ast.AST) -> bool:
+    """the value is (part of) an argument of a logger call or of a raised exception"""
+    cur = node
+    while True:
+        p = par.get(id(cur))
+        if p is None or isinstance(p, (ast.FunctionDef, ast.Lambda, ast.Assign, ast.AnnAssign, ast.AugAssign, ast.Return, ast.Yield)):
+            return False
+        if isinstance(p, ast.Call) and p.func is not cur:
+            if _is_sink_call(p) == 'RdDiagnostic':
+                return True
+            if isinstance(par.get(id(p)), ast.Raise):
+                return True
+        cur = p
+
+
+def _enclosing_fn(par: typing.Dict[int, ast.AST], node: ast.AST) -> typing.Optional[ast.FunctionDef]:
+    cur = par.get(id(node))
+    while cur is not None and not isinstance(cur, ast.FunctionDef):
+        cur = par.get(id(cur))
+    return cur
+
+
+def _package_dir(rel: str, expr: ast.AST) -> typing.Optional[str]:
+    """directory of the package named by the first argument of iter_package_resources at a call site"""
+    src = ast.unparse(expr)
+    base = os.path.join(gen.REPO, SRC)
+    if src == '__name__':
+        return os.path.join(base, os.path.dirname(rel))
+    if isinstance(expr, ast.Constant) and isinstance(expr.value, str) and expr.value.startswith('nunavut'):
+        return os.path.join(base, *expr.value.split('.')[1:])
+    if src == 'cls.MODULE_NAME':
+        return os.path.join(base, 'lang')
+    return None
+
+
+def classify_listing_sink(trees, pars, rel: str, node: ast.AST) -> str:
+    """a directory listing has file-system order.  Accounted for when
+         it is wrapped in sorted(...), or only added to a set/list that the function returns through sorted(...)  -> RdSortedListing
+         it only feeds any()/next(..., default)/len()/a comparison                                                 -> RdMembership
+         it is the listing inside iter_package_resources and EVERY call site of that helper names a package directory with at
+           most one file of the requested suffixes (so there is only one order)                                   -> RdSortedListing
+       else RdUnknown."""
+    par = pars[rel]
+    p = par.get(id(node))
+    while isinstance(p, ast.Call) and isinstance(p.func, ast.Name) and p.func.id in ('filter', 'map', 'list', 'iter'):
+        node, p = p, par.get(id(p))
+    if isinstance(p, ast.Call) and isinstance(p.func, ast.Name):
+        if p.func.id == 'sorted' and not any(k.arg == 'key' for k in p.keywords):
+            return 'RdSortedListing'
+        if p.func.id in ('any', 'all', 'len', 'bool', 'set', 'frozenset'):
+            return 'RdMembership' if p.func.id not in ('set', 'frozenset') else 'RdUnknown'
+    fn = _enclosing_fn(par, node)
+    if isinstance(p, (ast.For, ast.comprehension)) and fn is not None:
+        loop = p if isinstance(p, ast.For) else None
+        if loop is not None:
+            adds = [x for x in ast.walk(loop) if isinstance(x, ast.Call) and isinstance(x.func, ast.Attribute) and x.func.attr in ('add', 'append')]
+            targets = {ast.unparse(x.func.value) for x in adds}
+            rets = [r for r in ast.walk(fn) if isinstance(r, ast.Return) and r.value is not None]
+            only_adds = all(isinstance(st, (ast.Expr, ast.If)) for st in loop.body) and len(targets) == 1 and adds and \
+                not any(isinstance(x, (ast.Yield, ast.YieldFrom)) for x in ast.walk(loop))
+            if only_adds and rets and all(is_sorted_expr(r.value) and ast.unparse(r.value.args[0] if is_call_to(r.value, 'sorted') else r.value.args[0].args[0]) in targets
+                                          for r in rets):
+                return 'RdSortedListing'
+        if fn.name == 'iter_package_resources':
+            ok, n = True, 0
+            for rel2, tree2 in trees.items():
+                al2 = import_aliases(tree2)
+                for c in ast.walk(tree2):
+                    if isinstance(c, ast.Call) and (qual(c.func, al2) or '').endswith('iter_package_resources') and c.args:
+                        n += 1
+                        d = _package_dir(rel2, c.args[0])
+                        sufs = [a.value for a in c.args[1:] if isinstance(a, ast.Constant)]
+                        if d is None or len(sufs) != len(c.args) - 1 or not os.path.isdir(d):
+                            ok = False
+                            continue
+                        files = [x for x in os.listdir(d) if os.path.isfile(os.path.join(d, x)) and any(x.endswith(sf) for sf in sufs)
+                                 and not (x.endswith('.py') and '.py' not in sufs)]
+                        ok = ok and len(files) <= 1
+            return 'RdSortedListing' if ok and n else 'RdUnknown'
+    return 'RdUnknown'
+
+
+def classify_locale_read(trees, pars, rel: str, node: ast.AST) -> str:
+    """text decoded with the locale's encoding.  Accounted for only when it is `resource.read_text()` over the resources of
+    iter_package_resources(<package>, ".yaml") and every such packaged file is pure ASCII (decodes the same in every
+    ASCII-compatible locale)."""
+    par = pars[rel]
+    fn = _enclosing_fn(par, node)
+    if fn is None or not (isinstance(node, ast.Call) and isinstance(node.func, ast.Attribute) and node.func.attr == 'read_text'):
+        return 'RdUnknown'
+    al = import_aliases(trees[rel])
+    loops = [l for l in ast.walk(fn) if isinstance(l, ast.For) and isinstance(l.iter, ast.Call)
+             and (qual(l.iter.func, al) or '').endswith('iter_package_resources') and any(x is node for x in ast.walk(l))]
+    if len(loops) != 1 or ast.unparse(node.func.value) != ast.unparse(loops[0].target):
+        return 'RdUnknown'
+    call = loops[0].iter
+    d = _package_dir(rel, call.args[0]) if call.args else None
+    sufs = [a.value for a in call.args[1:] if isinstance(a, ast.Constant)]
+    if d is None or not sufs:
+        return 'RdUnknown'
+    for x in os.listdir(d):
+        if any(x.endswith(sf) for sf in sufs):
+            try:
+                open(os.path.join(d, x), 'rb').read().decode('ascii')
+            except UnicodeDecodeError:
+                return 'RdUnknown'
+    return 'RdAsciiPackagedText'
+
+
 def ambient_reads(trees: typing.Dict[str, ast.Module]) -> typing.Tuple[typing.List[typing.Tuple[str, str, str]], bool]:
     out = []
     clock_ok = True
     pars = {rel: _parents(tree) for rel, tree in trees.items()}
+    tfuncs = template_functions(trees)
+    ns_path_members = set(_path_members(trees['_namespace.py'], 'Namespace')) | {'_output_folder', '_output_path', '_base_output_path'}
     for rel, tree in trees.items():
         funcs = [n for n in ast.walk(tree) if isinstance(n, (ast.FunctionDef, ast.AsyncFunctionDef, ast.Lambda))]
         owner: typing.Dict[int, str] = {}
@@ -791,34 +1317,13 @@ def ambient_reads(trees: typing.Dict[str, ast.Module]) -> typing.Tuple[typing.Li
             for node in ast.walk(fn):
                 owner.setdefault(id(node), fn.name)    # outermost function wins (walk order: outer first)
         del funcs
+        alias = import_aliases(tree)
+        tf_nodes = {id(n) for r2, _, f2 in tfuncs if r2 == rel for n in ast.walk(f2)}
         for node in ast.walk(tree):
-            kind = None
-            if isinstance(node, ast.Call):
-                f = node.func
-                src = ast.unparse(f)
-                if isinstance(f, ast.Attribute):
-                    base = ast.unparse(f.value)
-                    if f.attr in CLOCK_ATTRS and re.search(r'\b(datetime|time|date)\b', base):
-                        kind = 'RClock'
-                    elif f.attr in ('getcwd', 'getcwdb', 'cwd', 'home', 'expanduser', 'gettempdir', 'mkdtemp', 'getpid',
-                                    'gethostname', 'getuser', 'getlogin', 'uname', 'node'):
-                        kind = 'RCwd'
-                    elif f.attr in ('resolve', 'absolute', 'abspath', 'realpath'):
-                        kind = 'RResolve'
-                    elif re.match(r'^(platform)\b', base) and f.attr != 'python_version':
-                        kind = 'RPlatform'
-                    elif re.match(r'^(random|uuid|secrets)\b', base):
-                        kind = 'RRandom'
-                    elif src in ('os.getenv', 'os.environ.get'):
-                        kind = 'REnviron'
-                elif isinstance(f, ast.Name) and f.id == 'id':
-                    kind = 'RRandom'       # object identity = address
-                elif isinstance(f, ast.Name) and f.id == 'hash' and owner.get(id(node)) != '__hash__':
-                    kind = 'RRandom'       # str hashes are seeded
-            elif isinstance(node, ast.Attribute) and node.attr == 'source_file_path' and isinstance(node.ctx, ast.Load):
-                kind = 'RAbsPath'      # pydsdl / Namespace: an absolute path
-            elif isinstance(node, ast.Attribute) and ast.unparse(node) in ('os.environ', 'sys._xoptions', 'sys.argv'):
-                kind = 'REnviron' if node.attr == 'environ' else ('RPlatform' if node.attr == '_xoptions' else None)
+            kind = detect_read(node, alias, owner.get(id(node)))
+            if kind is None and id(node) in tf_nodes and isinstance(node, ast.Attribute) and isinstance(node.ctx, ast.Load) \
+                    and node.attr in ns_path_members:
+                kind = 'RAbsPath'       # a filter/test reaching the Namespace path API: output location
             if kind is None:
                 continue
             fn_name = owner.get(id(node), '<module>')
@@ -826,6 +1331,12 @@ def ambient_reads(trees: typing.Dict[str, ast.Module]) -> typing.Tuple[typing.Li
                 site = classify_path_sink(trees, pars, rel, node)
                 if site == 'RdReduced':
                     continue
+            elif _diagnostic_only(pars[rel], node):
+                site = 'RdDiagnostic'
+            elif kind == 'RListdir':
+                site = classify_listing_sink(trees, pars, rel, node)
+            elif kind == 'RLocale':
+                site = classify_locale_read(trees, pars, rel, node)
             else:
                 site = READ_SITE_MAP.get((rel, fn_name, kind), 'RdUnknown')
             out.append((kind, site, '%s %s line %d' % (rel, fn_name, node.lineno)))
@@ -892,30 +1403,13 @@ def template_functions(trees: typing.Dict[str, ast.Module]) -> typing.List[typin
     return out
 
 
-def filter_rows(trees: typing.Dict[str, ast.Module], reads: list, iters: list) -> typing.List[typing.Tuple[bool, str]]:
-    rows = []
-    for rel, name, fn in template_functions(trees):
-        short = name.split('.')[-1]
-        lo, hi = fn.lineno, max(getattr(n, 'lineno', fn.lineno) for n in ast.walk(fn))
-        bad = []
-        for kind, site, desc in reads:
-            m = re.match(r'^(\S+) (\S+) line (\d+)', desc)
-            if m and m.group(1) == rel and lo <= int(m.group(3)) <= hi and site not in READS_OK_IN_FILTER:
-                bad.append('%s/%s' % (kind, site))
-        for site, srt, desc, total in iters:
-            if desc.startswith('%s %s ' % (rel, short)) and not (srt and total) and site == 'SetUnknown':
-                bad.append('set iteration')
-        rows.append((not bad, '%s %s%s' % (rel, name, (' : ' + ', '.join(bad)) if bad else '')))
-    return rows
-
-
 def coq_bool(b: bool) -> str:
     return 'true' if b else 'false'
 
 
 def build() -> typing.Tuple[str, dict]:
-    sites, includes, scanned = scan_all_templates()
     trees = {rel: parse(rel) for rel in py_files()}
+    sites, includes, scanned, name_rows = scan_all_templates(trees)
     reads, clock_ok = ambient_reads(trees)
     facts = {
         'sf_inc_sorted': fact_inc_sorted(),
@@ -938,7 +1432,7 @@ def build() -> typing.Tuple[str, dict]:
     nested_sort = [t for s_, t, _ in sorts if s_ == 'SortNestedNs']
     facts['sf_nested_sorted'] = bool(nested_iters) and all(srt for _, srt in nested_iters) and bool(nested_sort) and all(nested_sort)
     iters = set_iterations(trees)
-    frows = filter_rows(trees, reads, iters)
+    frows = name_rows      # every global / filter / test name the templates reference: known to the derived inventory
     lines = [gen.HEADER % 'src/nunavut/lang/{c,cpp,py,html}/{templates,support}/*.j2 and src/nunavut/**/*.py (tools/translators/gen_c07.py)',
              'From Coq Require Import List NArith.', 'From Verif Require Import Repro.', 'Import ListNotations.', 'Open Scope N_scope.', '']
     lines.append('Definition gen_sites : list site := [')
@@ -989,7 +1483,7 @@ def gen_repro() -> typing.Tuple[bool, str]:
         return False, 'gen_c07 failed closed: %s' % ex
     gen.write_if_changed(OUT, text)
     n_ungated = sum(1 for s in info['sites'] if not s['gated'] and s['kind'] != 'KPlatform')
-    return True, 'ok (%d template use sites, %d ungated; %d included files; %d template functions; %d set iterations; %d ambient reads; facts %s)' % (
+    return True, 'ok (%d template use sites, %d ungated; %d included files; %d template names classified; %d set iterations; %d ambient reads; facts %s)' % (
         len(info['sites']), n_ungated, len(info['includes']), len(info['filters']), len(info['set_iters']), len(info['reads']),
         ','.join(k for k, v in info['facts'].items() if not v) or 'all true')
 
